@@ -51,6 +51,18 @@ SUMMARY = {
  "C11-f": "SetCount refused (below arrivals) still lowers the count",
  "C12-f": "request-id middleware compares case-insensitively: a case-variant id is refused by the server only after the runtime state has moved",
  "C15-f": "same change as C08-f, asked for under C15: InitRuntimeDone of the next generation carries the stale Extension.ExitError",
+ "C01-g": "response body read into a buffer shared across invocations: the front end still holds (and writes out) a slice of it when the next invocation's response overwrites it",
+ "C02-g": "ReplySent no longer refuses a runtime /response: a late submission after the platform's own error reply is appended to it, the handler blocks holding the server mutex, the reset never ends",
+ "C04-g": "trace header in the extensions' INVOKE event parsed and re-built: non-canonical values (Lineage, other order, no Sampled, opaque) are altered or dropped",
+ "C05-g": "graceful shutdown skipped when no extension is subscribed to SHUTDOWN (same shortcut as C06-f, asked for under C05): extensions survive the timeout, the answer comes 2 s late",
+ "C09-g": "shutdown takes the 'no agents' shortcut when the runtime was never started: launched extensions get no SHUTDOWN and are not killed",
+ "C13-g": "exit/error of an internal extension calls InitError: refused after the first next, wrong final state right after register",
+ "C14-g": "Content-Length fast path refuses a response of exactly the limit (< instead of <=)",
+ "C16-g": "overlay order of the runtime environment swapped for the first two layers: a customer value of AWS_XRAY_DAEMON_ADDRESS wins over the platform's",
+ "C17-g": "reset of a streaming copy waits for the copy before closing the runtime's connection: a copy blocked reading a stalled runtime never ends",
+ "C18-g": "UpdateCredentials ignores restore credentials that expire earlier than the ones held",
+ "C19-g": "Exec sets WaitDelay: a process that exits 0 while a child keeps its output open is reported with exit status 1",
+ "C20-g": "error-type pattern hoisted into a package regexp with [A-z] instead of [a-zA-Z]: types with [ \\ ] ^ _ ` pass",
  "C04-e": "AwaitRuntimeReady of the invoke flow waits on the response gate: the invocation completes before the runtime asked for next",
  "C11-e": "a cancelled gate whose count is met returns success from AwaitGateCondition",
  "C13-e": "event validation of register only looks at the last element: an illegal event before a legal one registers a ghost / wrong error type",
